@@ -24,4 +24,7 @@ def toBytes (big : Bool) (w v : Nat) : Bytes := if big then natToBE w v else (na
 /-- `int.from_bytes(bs, 'big' | 'little')` (unsigned). -/
 def fromBytes (big : Bool) (bs : Bytes) : Nat := if big then natOfBE bs else natOfBE bs.reverse
 
+/-- `bs * n` / `n * bs` for `0 ≤ n`: `n` copies of `bs`. -/
+def repeatBytes (bs : Bytes) (n : Nat) : Bytes := (List.replicate n bs).flatten
+
 end TonVerif.Py
